@@ -1,6 +1,7 @@
 """C12 / C02 harness, part 2: store shapes, operation kinds, the traced un-faulted run of a case, the
 derivation of the model request from what the real server did, and the crash / fault injection runs."""
 import json
+import re
 import os
 import shutil
 import subprocess
@@ -28,11 +29,11 @@ def conf_for(base, lay, predefined=False):
 
 def EV(uid, summary="s"):
     return ("BEGIN:VCALENDAR\r\nPRODID:-//verif//EN\r\nVERSION:2.0\r\nBEGIN:VEVENT\r\nUID:%s\r\nSUMMARY:%s\r\n"
-            "DTSTART:20130901T180000Z\r\nDTEND:20130901T190000Z\r\nEND:VEVENT\r\nEND:VCALENDAR\r\n" % (uid, summary))
+            "DTSTAMP:20130101T000000Z\r\nDTSTART:20130901T180000Z\r\nDTEND:20130901T190000Z\r\nEND:VEVENT\r\nEND:VCALENDAR\r\n" % (uid, summary))
 
 
 def EVS(uids, summary="s"):
-    body = "".join("BEGIN:VEVENT\r\nUID:%s\r\nSUMMARY:%s\r\nDTSTART:20130901T180000Z\r\nDTEND:20130901T190000Z\r\nEND:VEVENT\r\n"
+    body = "".join("BEGIN:VEVENT\r\nUID:%s\r\nSUMMARY:%s\r\nDTSTAMP:20130101T000000Z\r\nDTSTART:20130901T180000Z\r\nDTEND:20130901T190000Z\r\nEND:VEVENT\r\n"
                    % (u, summary) for u in uids)
     return "BEGIN:VCALENDAR\r\nPRODID:-//verif//EN\r\nVERSION:2.0\r\n%sEND:VCALENDAR\r\n" % body
 
@@ -156,6 +157,15 @@ def op_requests():
     }
 
 
+EXTRA_OPS = {}
+
+
+def all_ops():
+    d = op_requests()
+    d.update(EXTRA_OPS)
+    return d
+
+
 SKIP = {"move_same_over", "move_cross_over"}   # rename onto itself / UID-conflict answers: not modifying
 
 
@@ -172,7 +182,9 @@ def run_driver(case_dir, folder, conf, op, inject=None, list_before=(), list_aft
             os.remove(f)
     json.dump(dict(folder=folder, conf=conf, fsync=True, request=http_of(op), list_before=list(list_before),
                    list_after=list(list_after)), open(spec, "w"))
-    cmd = ["strace", "-f", "--seccomp-bpf", "-y", "-s", "70000", "-e", "trace=" + X.TRACE_CALLS, "-o", tr]
+    cmd = ["strace", "-f", "-y", "-s", "70000", "-e", "trace=" + X.TRACE_CALLS, "-o", tr]
+    if not (inject and "signal=" in inject):
+        cmd.insert(2, "--seccomp-bpf")      # signal injection needs the syscall-entry stop
     if inject:
         cmd += ["-e", "inject=" + inject]
     cmd += [core.PY, X.DRIVER, spec, outp]
@@ -223,7 +235,7 @@ def expired(folder, lay, coll, gone_after, max_age=2592000):
 
 def prepare_case(base, shape, lay, opname, tag=""):
     """copy the pre-state into a fresh case directory; returns dict(case_dir, folder, conf, op)"""
-    op = op_requests()[opname]
+    op = all_ops()[opname]
     pre = build_shape(shape, lay, base)
     case_dir = os.path.join(base, "case-%s-%d%d-%s%s" % (shape, lay[0], lay[1], opname, tag))
     if os.path.isdir(case_dir):
@@ -315,4 +327,90 @@ def unfaulted(base, shape, lay, opname):
     return dict(shape=shape, lay=lay, opname=opname, status=out.get("status"), request=req, pre_entries=pre_entries,
                 post_entries=post_entries, steps=[(s["step"], s["ok"]) for s in steps],
                 sys=[[(x.name, x.ordinal) for x in s["sys"]] for s in steps], locks=[(x.name, x.ordinal) for x in locks],
-                pre_abs=pre_abs, post_abs=post_abs, names=names, contents=contents, case_dir=c["case_dir"], error=None)
+                pre_abs=pre_abs, post_abs=post_abs, names=names, contents=contents, case_dir=c["case_dir"], error=None,
+                list_before=lb, list_after=["collection-root/" + coll])
+
+
+# ====================================================================== crash / fault injection
+SUCCESS = {200, 201, 204, 207}
+
+
+def inject_run(job):
+    """One injected run.  job: dict(base, shape, lay, opname, tag, inject=(mode, errno|None, sysname, ordinal),
+    expect_path (canonical model path of the step or None), pre_abs, post_abs).  Returns a result dict."""
+    from vlib import impl
+    c = prepare_case(job["base"], job["shape"], tuple(job["lay"]), job["opname"], tag="-" + job["tag"])
+    op, folder = c["op"], c["folder"]
+    mode, err, sysname, ordinal = job["inject"]
+    spec = "%s:%s:when=%d" % (sysname, "signal=KILL" if mode == "crash" else "error=" + err, ordinal)
+    rc, txt, out, tr = run_driver(c["case_dir"], folder, c["conf"], op, inject=spec,
+                                  list_before=job.get("list_before", ()), list_after=job.get("list_after", ()))
+    res = dict(tag=job["tag"], status=(out or {}).get("status"), killed=out is None, problems=[], hit=False)
+    # did the injection hit the intended call?
+    hit_line = None
+    try:
+        with open(tr, errors="replace") as f:
+            lines = f.readlines()
+        n = 0
+        for ln in lines:
+            m = re.match(r"^\d+\s+(\w+)\(", ln) or re.match(r"^\d+\s+<\.\.\. (\w+) resumed>", ln)
+            if m and m.group(1) == sysname and "resumed>" not in ln.split("(")[0]:
+                n += 1
+                if n == ordinal:
+                    hit_line = ln
+                    break
+        if mode == "crash":
+            res["hit"] = any("killed by SIGKILL" in ln for ln in lines[-3:]) and out is None
+        else:
+            res["hit"] = hit_line is not None and "(INJECTED)" in hit_line
+        if hit_line is not None and job.get("expect_frag") and job["expect_frag"] not in hit_line:
+            res["hit"] = False
+            res["miss"] = "expected %r in %r" % (job["expect_frag"], hit_line[:200])
+    except OSError as ex:
+        res["miss"] = repr(ex)
+    # ---- the all-or-nothing monitor on the surviving tree
+    a = X.abs_of_tree(folder)
+    cls = "before" if a == job["pre_abs"] else ("after" if a == job["post_abs"] else "neither")
+    if job["pre_abs"] == job["post_abs"]:
+        cls = "same"
+    res["cls"] = cls
+    if cls == "neither":
+        d1 = sorted(k for k in set(a) | set(job["pre_abs"]) if a.get(k, 0) != job["pre_abs"].get(k, 0))
+        d2 = sorted(k for k in set(a) | set(job["post_abs"]) if a.get(k, 0) != job["post_abs"].get(k, 0))
+        res["problems"].append("visible store is neither before nor after: differs from before at %s, from after at %s" % (d1[:4], d2[:4]))
+    if res["status"] in SUCCESS and cls == "before":
+        res["problems"].append("answered %s but the store is in the before-state" % res["status"])
+    # ---- a fresh server over the surviving tree: verify passes, requests are served
+    try:
+        for d, ds, fs in os.walk(folder):
+            for f in fs:
+                if f.startswith(".Radicale.lock"):
+                    pass
+        srv = impl.Server(conf=c["conf"], folder=folder, fsync=False)
+        ok = srv.application._storage.verify()
+        if not ok:
+            res["problems"].append("storage.verify() fails on the surviving tree")
+        st, _ = srv.propfind("/user/", depth="1", login=L)
+        if st != 207:
+            res["problems"].append("follow-up PROPFIND answers %s" % st)
+        st2 = srv.request("PUT", "/user/abook/zz-followup.vcf", data=VC("zzf"), login=L)[0]
+        if st2 != 201:
+            res["problems"].append("follow-up PUT answers %s" % st2)
+        a2 = X.abs_of_tree(folder)
+        extra = {k: v for k, v in a2.items() if k not in ("user/abook/zz-followup.vcf",)}
+        if extra != a:
+            res["problems"].append("follow-up requests changed other data")
+    except Exception as ex:  # a wedged or unreadable store
+        res["problems"].append("fresh server over the surviving tree fails: %r" % (ex,))
+    shutil.rmtree(c["case_dir"], ignore_errors=True)
+    return res
+
+
+def injection_points(un, every_syscall=False):
+    """From an un-faulted result: list of (k, sysname, ordinal, frag, label) -- k = model step index."""
+    pts = []
+    for k, ((st, ok), sysl) in enumerate(zip(un["steps"], un["sys"])):
+        use = sysl if every_syscall else sysl[:1]
+        for j, (name, ordinal) in enumerate(use):
+            pts.append((k, name, ordinal, None, "%s%s" % (X.fmt_step(st), "" if j == 0 else " [+%d]" % j)))
+    return pts
